@@ -249,3 +249,228 @@ def faulty_caller():
                   ("quiesce",), ("eof", 1), ("eof", 0), ("eof", 2), ("quiesce",)]
             out.append(Scenario(st, name="faulty-caller-%s-%s" % (mode.replace(",", "_").replace(":", "_"), tr)))
     return out
+
+
+# ---------------------------------------------------------------------------------------------------------------------
+# families added after the second round of seeded changes
+# ---------------------------------------------------------------------------------------------------------------------
+
+def case_variants():
+    """several elements whose paths differ only in case exist BEFORE and AFTER a fetch with every matcher kind,
+    case sensitive and not: the replica must hold every match (not only the first one found)"""
+    out = []
+    paths = ["a/b", "A/B", "a/B", "A/b", "x/a/b"]
+    rules = [obj(equals="a/b", caseInsensitive=True), obj(equals="A/B", caseInsensitive=True), obj(equals="a/b"),
+             obj(equalsNot="a/b", caseInsensitive=True), obj(startsWith="a/", caseInsensitive=True),
+             obj(endsWith="/B", caseInsensitive=True), obj(contains="A/b", caseInsensitive=True),
+             obj(containsAllOf=["a", "B"], caseInsensitive=True), obj(caseInsensitive=True, equals="a/B")]
+    for i, rule in enumerate(rules):
+        for tr in ("raw", "ws"):
+            st = [("connect", 0, "raw", "local6"), ("connect", 1, tr, "remote6"), ("connect", 2, "raw", "local6")]
+            n = 1
+            for k, p in enumerate(paths[:3]):
+                st.append(("msg", 0 if k % 2 == 0 else 2, obj(method="add", params=obj(path=p, value=k), id=n)))
+                n += 1
+            st.append(("msg", 1, obj(method="fetch", params=obj(id="f", path=rule), id=50)))
+            for k, p in enumerate(paths[3:]):
+                st.append(("msg", 0, obj(method="add", params=obj(path=p, value=10 + k), id=n)))
+                n += 1
+            st += [("msg", 0, obj(method="change", params=obj(path="a/b", value=77), id=n)),
+                   ("msg", 2, obj(method="change", params=obj(path="A/B", value=78), id=n + 1)),
+                   ("msg", 1, obj(method="get", params=obj(path=rule), id=51)),
+                   ("msg", 0, obj(method="remove", params=obj(path="a/B"), id=n + 2)),
+                   ("quiesce",), ("eof", 2), ("quiesce",), ("eof", 0), ("eof", 1), ("quiesce",)]
+            out.append(Scenario(st, name="case-variants-%d-%s" % (i, tr)))
+    return out
+
+
+def equal_looking_values():
+    """an accepted change to a value that a tolerant comparison would call equal to the old one must still be stored
+    and reported (numbers a few ulp apart, repeated object members, member order, 1 vs 1.0 vs true)"""
+    pairs = [(1.0000000000000004, 1.0000000000000007), (1.0000000000000007, 1.0000000000000004),
+             (obj(("a", 1), ("a", 1)), obj(a=1)), (obj(a=1), obj(("a", 1), ("a", 1))),
+             (obj(("a", 1), ("b", 2)), obj(("a", 1), ("b", 2), ("a", 1))), (obj(("a", 1), ("b", 2)), obj(("b", 2), ("a", 1))),
+             (obj(("a", 1), ("A", 2)), obj(("A", 2), ("a", 1))),
+             (1, True), (0, False), (0, None), ("", None), ([], obj()), ([1, 2], [1, 2, None]), ("1", 1), (1e10, 10000000000),
+             (3000000000, 3000000001), (0.1, 0.10000000000000002), ([obj(a=[1.0000000000000004])], [obj(a=[1.0000000000000007])])]
+    out = []
+    for i, (v1, v2) in enumerate(pairs):
+        st = [("connect", 0, "raw", "local6"), ("connect", 1, "ws", "remote6"),
+              ("msg", 1, obj(method="fetch", params=obj(id="f"), id=1)),
+              ("msg", 0, obj(method="add", params=obj(path="s", value=v1), id=1)),
+              ("msg", 0, obj(method="change", params=obj(path="s", value=v2), id=2)),
+              ("msg", 1, obj(method="get", params=obj(), id=2)),
+              ("quiesce",),
+              ("msg", 0, obj(method="change", params=obj(path="s", value=v1), id=3)),
+              ("msg", 0, obj(method="change", params=obj(path="s", value=v1), id=4)),
+              ("msg", 1, obj(method="get", params=obj(), id=3)),
+              ("quiesce",), ("eof", 0), ("eof", 1), ("quiesce",)]
+        out.append(Scenario(st, name="equal-looking-%d" % i))
+    return out
+
+
+def dup_members():
+    """requests whose params (or top level) carry a member twice in different spellings: every handler must act on the same
+    one (cJSON's lookup: first match, case-insensitive), so that the existence check and the insertion see one path"""
+    out = []
+    spell = [("PATH", "path"), ("path", "PATH"), ("Path", "path"), ("path", "path")]
+    for i, (k1, k2) in enumerate(spell):
+        for meth in ("add", "change", "remove", "set", "call"):
+            st = [("connect", 0, "raw", "local6"), ("connect", 1, "raw", "remote6"), ("connect", 2, "ws", "remote6"),
+                  ("msg", 2, obj(method="fetch", params=obj(id="f"), id=1)),
+                  ("msg", 0, obj(method="add", params=obj(path="taken", value=1), id=1)),
+                  ("msg", 0, obj(method="add", params=obj(path="m"), id=2)),
+                  ("msg", 1, obj(method="add", params=obj(path="mine", value=5), id=1))]
+            if meth == "add":
+                st.append(("msg", 1, obj(method="add", params=obj((k1, "free"), (k2, "taken"), ("value", 2)), id=2)))
+                st.append(("msg", 1, obj(method="add", params=obj((k1, "taken"), (k2, "free2"), ("value", 3)), id=3)))
+            elif meth == "change":
+                st.append(("msg", 1, obj(method="change", params=obj((k1, "mine"), (k2, "taken"), ("value", 9)), id=2)))
+                st.append(("msg", 1, obj(method="change", params=obj((k1, "taken"), (k2, "mine"), ("value", 8)), id=3)))
+                st.append(("msg", 1, obj(method="change", params=obj(("path", "mine"), ("VALUE", 21), ("value", 22)), id=4)))
+            elif meth == "remove":
+                st.append(("msg", 1, obj(method="remove", params=obj((k1, "taken"), (k2, "mine")), id=2)))
+                st.append(("msg", 1, obj(method="remove", params=obj((k1, "mine"), (k2, "taken")), id=3)))
+            elif meth == "set":
+                st.append(("msg", 1, obj(method="set", params=obj((k1, "taken"), (k2, "m"), ("value", 4)), id=2)))
+                st.append(("msg", 1, obj(method="set", params=obj((k1, "m"), (k2, "taken"), ("value", 4)), id=3)))
+            else:
+                st.append(("msg", 1, obj(method="call", params=obj((k1, "m"), (k2, "taken"), ("args", [1])), id=2)))
+                st.append(("msg", 1, obj(method="call", params=obj((k1, "taken"), (k2, "m")), id=3)))
+            st += [("msg", 2, obj(method="get", params=obj(), id=2)),
+                   ("msg", 0, obj(method="change", params=obj(path="taken", value=100), id=9)),
+                   ("msg", 0, obj(method="remove", params=obj(path="taken"), id=10)),
+                   ("msg", 2, obj(method="get", params=obj(), id=3)),
+                   ("quiesce",), ("eof", 0), ("eof", 1), ("eof", 2), ("quiesce",)]
+            out.append(Scenario(st, name="dup-members-%d-%s" % (i, meth)))
+    return out
+
+
+def reply_forms():
+    """the owner answers with differently spelled members ("Result", "ERROR"), with both members, with neither, inside a
+    JSON array, several at once: the requester must get one well-formed response (result XOR error) per request"""
+    out = []
+    forms = [("Result", True), ("RESULT", obj(a=1)), ("Error", obj(code=5, message="no")), ("ERROR", obj(code=6, message="no")),
+             ("result", None), ("error", obj(code=-1, message="m", data=[1])), ("resulT", 0)]
+    for i, (key, val) in enumerate(forms):
+        for tr in ("raw", "ws"):
+            st = [("connect", 0, tr, "local6"), ("connect", 1, "raw", "remote6"), ("connect", 2, "ws", "remote6"),
+                  ("msg", 0, obj(method="add", params=obj(path="s", value=1), id=1)),
+                  ("msg", 0, obj(method="add", params=obj(path="m"), id=2)),
+                  ("msg", 1, obj(method="set", params=obj(path="s", value=2), id="r1")),
+                  ("msg", 2, obj(method="call", params=obj(path="m", args=[1]), id="r2")),
+                  ("msg", 1, obj(method="call", params=obj(path="m"), id=3)),
+                  ("reply", 0, 0, key, val),
+                  ("reply", 0, [1, 2], key, val),
+                  ("msg", 1, obj(method="set", params=obj(path="s", value=3), id="r4")),
+                  ("reply", 0, [3], key, val),
+                  ("quiesce",), ("eof", 1), ("eof", 0), ("eof", 2), ("quiesce",)]
+            out.append(Scenario(st, name="reply-forms-%d-%s" % (i, tr)))
+    return out
+
+
+def faulty_caller_batched():
+    """like faulty_caller, with the owner answering inside JSON arrays: the answer for the unreachable caller and the one
+    for a healthy caller travel in one message; the owner and the healthy caller must not notice"""
+    out = []
+    for mode in ("err", "eagain", "0,0:err"):
+        for tr in ("raw", "ws"):
+            for ks in ([0], [0, 1], [1, 0, 2]):
+                st = [("connect", 0, tr, "local6"), ("connect", 1, "raw", "remote6"), ("connect", 2, "ws", "remote6"),
+                      ("msg", 0, obj(method="add", params=obj(path="s", value=1), id=1)),
+                      ("msg", 0, obj(method="add", params=obj(path="m"), id=2)),
+                      ("msg", 2, obj(method="fetch", params=obj(id="f"), id=1)),
+                      ("msg", 1, obj(method="set", params=obj(path="s", value=2), id="c1")),
+                      ("msg", 2, obj(method="call", params=obj(path="m", args=[1]), id="h1")),
+                      ("msg", 1, obj(method="call", params=obj(path="m", args=[2]), id="c2")),
+                      ("wmode", 1, mode),
+                      ("reply", 0, ks, "result", True),
+                      ("msg", 0, obj(method="change", params=obj(path="s", value=5), id=3)),
+                      ("msg", 2, obj(method="call", params=obj(path="m"), id="other")),
+                      ("reply", 0, 3, "result", 7),
+                      ("quiesce",), ("eof", 1), ("eof", 0), ("eof", 2), ("quiesce",)]
+                out.append(Scenario(st, name="faulty-caller-batched-%s-%s-%s" % (mode.replace(",", "_").replace(":", "_"), tr, "".join(map(str, ks)))))
+    return out
+
+
+def subms_timeouts():
+    """deadlines with sub-millisecond parts and values whose double lies just below the decimal: the armed interval is the
+    exact conversion, never rounded down to a coarser unit"""
+    out = []
+    vals = [1.001, 1.003, 1.005, 0.0019, 2.0005, 0.0015, 0.001, 0.0010000000000000002, 4.999999999, 0.123456789, 1e-3 + 1e-9, 3.0000000005]
+    for i in range(0, len(vals), 3):
+        grp = vals[i:i + 3]
+        st = [("connect", 0, "raw", "local6"), ("connect", 1, "ws", "remote6"),
+              ("msg", 0, obj(method="add", params=obj(path="m"), id=1))]
+        for k, v in enumerate(grp):
+            st.append(("msg", 0, obj(method="add", params=obj(path="s%d" % k, value=0, timeout=v), id=10 + k)))
+        for k, v in enumerate(grp):
+            st.append(("msg", 1, obj(method="call", params=obj(path="m", timeout=v), id="c%d" % k)))
+            st.append(("msg", 1, obj(method="set", params=obj(path="s%d" % k, value=1), id="e%d" % k)))
+            st.append(("msg", 1, obj(method="set", params=obj(path="s%d" % k, value=1, timeout=grp[(k + 1) % len(grp)]), id="o%d" % k)))
+        st += [("advance", 900000), ("advance", 100000), ("advance", 1000000), ("advance", 10 ** 9), ("advance", 5 * 10 ** 9),
+               ("quiesce",), ("eof", 1), ("eof", 0), ("quiesce",)]
+        out.append(Scenario(st, name="subms-timeouts-%d" % i))
+    return out
+
+
+def reauth_after_fetch():
+    """a peer that holds fetches tries to authenticate (again, as somebody else): whatever the daemon answers, the fetch must
+    be detached from every element when the peer leaves and the replica must follow the rights actually in force"""
+    out = []
+    allg = ["g0", "g1"]
+    users = [
+        {"name": "root", "password": "toor!pw", "auth": obj(fetchGroups=allg, setGroups=allg, callGroups=allg), "readonly": False, "admin": True},
+        {"name": "u0", "password": "u0-pw", "auth": obj(fetchGroups=["g0"], setGroups=["g0"], callGroups=["g0"]), "readonly": False, "admin": False},
+        {"name": "u1", "password": "u1-pw", "auth": obj(fetchGroups=["g1"], setGroups=["g1"], callGroups=["g1"]), "readonly": False, "admin": False},
+        {"name": "nothing", "password": "nothing-pw", "auth": obj(), "readonly": False, "admin": False},
+    ]
+    pw = {u["name"]: u["password"] for u in users}
+    for first, second in (("u0", "u1"), ("u0", "nothing"), ("u1", "u0"), ("root", "nothing"), (None, "u0"), ("u0", "u0")):
+        for tr in ("raw", "ws"):
+            st = [("connect", 0, "raw", "local6"), ("connect", 1, tr, "remote6"),
+                  ("msg", 0, obj(method="authenticate", params=obj(user="root", password=pw["root"]), id=1)),
+                  ("msg", 0, obj(method="add", params=obj(path="s0", value=1, access=obj(fetchGroups=["g0"], setGroups=["g0"])), id=2)),
+                  ("msg", 0, obj(method="add", params=obj(path="s1", value=1, access=obj(fetchGroups=["g1"], setGroups=["g1"])), id=3))]
+            if first:
+                st.append(("msg", 1, obj(method="authenticate", params=obj(user=first, password=pw[first]), id=10)))
+            st += [("msg", 1, obj(method="fetch", params=obj(id="f"), id=11)),
+                   ("msg", 1, obj(method="authenticate", params=obj(user=second, password=pw[second]), id=12)),
+                   ("msg", 0, obj(method="change", params=obj(path="s0", value=2), id=4)),
+                   ("msg", 0, obj(method="change", params=obj(path="s1", value=2), id=5)),
+                   ("msg", 1, obj(method="get", params=obj(), id=13)),
+                   ("msg", 1, obj(method="unfetch", params=obj(id="f"), id=14)) if tr == "ws" else ("quiesce",),
+                   ("eof", 1), ("quiesce",),
+                   ("msg", 0, obj(method="change", params=obj(path="s0", value=3), id=6)),
+                   ("msg", 0, obj(method="change", params=obj(path="s1", value=3), id=7)),
+                   ("msg", 0, obj(method="remove", params=obj(path="s0"), id=8)),
+                   ("quiesce",), ("eof", 0), ("quiesce",)]
+            out.append(Scenario(st, users=users, name="reauth-after-fetch-%s-%s-%s" % (first, second, tr)))
+    return out
+
+
+def no_groups_file():
+    """a credential file that loads but names no group at all: access control is ON and nobody shares a group with anything"""
+    out = []
+    users = [
+        {"name": "alice", "password": "pw-alice", "auth": obj(), "readonly": False, "admin": False},
+        {"name": "bob", "password": "bobsecret", "auth": obj(fetchGroups=[], setGroups=[], callGroups=[]), "readonly": False, "admin": True},
+        {"name": "carol", "password": "carol-pw", "auth": None, "readonly": False, "admin": False},
+    ]
+    for who in (None, "alice", "bob", "carol"):
+        for tr in ("raw", "ws"):
+            st = [("connect", 0, "raw", "local6"), ("connect", 1, tr, "remote6"),
+                  ("msg", 0, obj(method="add", params=obj(path="s", value=1), id=1)),
+                  ("msg", 0, obj(method="add", params=obj(path="m"), id=2)),
+                  ("msg", 0, obj(method="add", params=obj(path="g", value=1, access=obj(fetchGroups=["g0"], setGroups=["g0"])), id=3))]
+            if who:
+                pwd = [u["password"] for u in users if u["name"] == who][0]
+                st.append(("msg", 1, obj(method="authenticate", params=obj(user=who, password=pwd), id=9)))
+            st += [("msg", 1, obj(method="fetch", params=obj(id="f"), id=10)),
+                   ("msg", 1, obj(method="get", params=obj(), id=11)),
+                   ("msg", 1, obj(method="set", params=obj(path="s", value=2), id=12)),
+                   ("msg", 1, obj(method="call", params=obj(path="m"), id=13)),
+                   ("msg", 0, obj(method="change", params=obj(path="s", value=3), id=4)),
+                   ("quiesce",), ("eof", 1), ("eof", 0), ("quiesce",)]
+            out.append(Scenario(st, users=users, groups=[], name="no-groups-file-%s-%s" % (who, tr)))
+    return out
